@@ -89,3 +89,32 @@ def run(ctx):
         discarded = isinstance(st, ast.Assign) and isinstance(st.targets[0], ast.Tuple) and len(st.targets[0].elts) == 2 and norm(st.targets[0].elts[1]) == "_"
         ctx.ob("C26.R4", F + ":CPreProcessor.parse_expression", "the type specifiers returned by cnum() (u/l suffixes) are used, so unsigned operands get unsigned arithmetic",
                not discarded, construct="cnum-type-specifier", node=c, detail=norm(st))
+    _hidesets(ctx)
+
+
+def _hidesets(ctx):
+    """R5: macro expansion bookkeeping (C11 6.10.3.4: a macro is not re-expanded inside its own expansion)"""
+    from ..core import last_name, calls_in
+    from .. import sym
+    ctx.rule("C26.R5", "macro expansion: a name is expanded only if it is defined and not hidden; the new expansion hides the macro itself plus what is hidden where expansion continues AFTER the arguments were read; it is pushed with that hideset", floor=6)
+    ex = ctx.fn(F, "CPreProcessor.expand")
+    site = F + ":CPreProcessor.expand"
+    em = [c for c in calls_in(ex, "expand_macro")]
+    ctx.need(len(em) == 1, "expand: call of expand_macro not found")
+    cj = [(" ".join(norm(e).split()), pol) for e, pol in sym.conjuncts(em[0], ex, sym.single_assign_env(ex))]
+    ctx.ob("C26.R5", site, "a macro is expanded only when it is defined", any(pol and t == "self.is_defined(macro_token.val)" for t, pol in cj), construct="only-defined", detail=str(cj))
+    ctx.ob("C26.R5", site, "a macro in the current hideset is not expanded again", any((not pol) and t == "self.in_hideset(macro_token.val)" for t, pol in cj), construct="not-hidden", detail=str(cj))
+    reads = [n for n in ast.walk(ex) if isinstance(n, ast.Attribute) and n.attr == "hideset" and "macro_expansions[-1]" in norm(n.value)]
+    ok = bool(reads) and all(r.lineno > em[0].lineno for r in reads)
+    ctx.ob("C26.R5", site, "the inherited hideset is taken from the expansion stack after expand_macro() has read the arguments (reading `(` and the arguments pops expansions that are exhausted: their hidden names no longer apply)", ok,
+           construct="hideset-after-arguments", node=reads[0] if reads else ex)
+    own = [n for n in ast.walk(ex) if isinstance(n, ast.BinOp) and isinstance(n.op, ast.BitOr) and "macro.name" in norm(n)]
+    ctx.ob("C26.R5", site, "the macro's own name is added to the hideset", bool(own) and any(isinstance(x, ast.Set) and [norm(e) for e in x.elts] == ["macro.name"] for o in own for x in ast.walk(o)), construct="hides-itself")
+    empty = [n for n in ast.walk(ex) if isinstance(n, ast.If) and "macro_expansions" in norm(n.test) and any(isinstance(s, ast.Assign) and norm(s.value) in ("set()", "frozenset()") for s in n.orelse)]
+    ctx.ob("C26.R5", site, "outside any expansion nothing is inherited", bool(empty), construct="empty-at-top")
+    pe = [c for c in calls_in(ex, "push_expansion")]
+    ok = len(pe) == 1 and isinstance(pe[0].args[0], ast.Call) and norm(pe[0].args[0].func) == "MacroExpansion" and len(pe[0].args[0].args) == 2 and norm(pe[0].args[0].args[1]) == "hideset" and "expansion" in norm(pe[0].args[0].args[0])
+    ctx.ob("C26.R5", site, "the expansion is pushed together with that hideset", ok, construct="pushed-with-hideset")
+    ih = ctx.fn(F, "CPreProcessor.in_hideset")
+    ok = "macro_expansions[-1].hideset" in norm(ih) and any(isinstance(r, ast.Return) and norm(r.value) == "False" for r in ast.walk(ih))
+    ctx.ob("C26.R5", F + ":CPreProcessor.in_hideset", "hidden = member of the hideset of the innermost active expansion; nothing is hidden outside expansions", ok, construct="in-hideset")
